@@ -113,24 +113,67 @@ pub fn get_prop(v: &Vals, prop: usize) -> PropVal {
     }
 }
 
-/// Tolerance, in units of f32::EPSILON x (largest magnitude involved), for values observed while
-/// the evaluation time is within a rounding or two of an off-grid end instant: one rounding of the
-/// time (1e-7 of the normalised position) moves a value by at most 5e-4 of the interpolated range
-/// under the steepest built-in curve (the circular easings are vertical at one end: sqrt(2e-7));
-/// 2e-3 leaves room for that and still is three orders of magnitude below "back at the start
-/// values".
-pub const BAND_ULPS: f32 = 16384.0;
+/// How far - relative to the largest magnitude involved - a value may be from its terminal value
+/// when the evaluation happened within a rounding or two of an off-grid end instant ("in the
+/// band"), or `None` when one rounding can legitimately carry the value anywhere.
+///
+/// The evaluation time is an f32 of the size of the total `U` (delay included), so its rounding is
+/// `eps x U`; relative to one cycle that is `d = 8 eps x U / cycle` of the normalised position
+/// (x2 when reversing). Across a keyframe segment of length `g` next to the terminal position the
+/// eased interpolation parameter moves by `r = d / g`, and a built-in curve moves a value by at
+/// most `max(sqrt(r), 20 r)` of the segment's range (the circular easings have a vertical tangent
+/// at one end: sqrt; the steepest finite slopes - Expo, Elastic, Back - stay below 20). The
+/// smallest gap between any two keyframe positions (0 % and 100 % included) is used for `g`.
+/// A discontinuous easing (the staircase) or `max(..) >= 1/4` gives `None`. For ordinary timelines
+/// the result is a few 1e-3 - three orders of magnitude below "back at the start values".
+pub fn band_tolerance(m: &MergedSpec) -> Option<f32> {
+    let mut worst = 0.0f64;
+    for p in &m.parts {
+        if p.uses_easing(CUSTOM_STEPS) || p.uses_easing(CUSTOM_BEZIER) {
+            return None;
+        }
+        let cycles = match p.repeat {
+            Rep::None => 1.0,
+            Rep::Times(n) => n as f64 + 1.0,
+            Rep::Infinite => return None,
+        };
+        let cycle = p.duration as f64;
+        let total = p.delay as f64 + cycle * cycles;
+        let d = 8.0 * f32::EPSILON as f64 * (total / cycle).max(1.0) * if p.reverse { 2.0 } else { 1.0 };
+        let mut positions: Vec<f64> = p.kfs.iter().map(|k| k.pos as f64).collect();
+        positions.push(0.0);
+        positions.push(1.0);
+        positions.sort_by(|a, b| a.total_cmp(b));
+        let mut gap = 1.0f64;
+        for w in positions.windows(2) {
+            if w[1] > w[0] {
+                gap = gap.min(w[1] - w[0]);
+            }
+        }
+        let r = d / gap;
+        worst = worst.max(r.sqrt().max(20.0 * r));
+    }
+    if worst >= 0.25 {
+        None
+    } else {
+        Some((2.0 * worst) as f32)
+    }
+}
 
-/// `actual` equals `expected` within the float-rounding band tolerance (`BAND_ULPS`); integers
-/// within the same relative tolerance, at least 1.
-pub fn close_within_band(m: &MergedSpec, prop: usize, actual: PropVal, expected: PropVal, extra: PropVal) -> bool {
+/// `actual` equals `expected` within `tol` x (largest magnitude involved); integers likewise, at
+/// least 1.
+pub fn close_within_band(m: &MergedSpec, prop: usize, actual: PropVal, expected: PropVal, extra: PropVal, tol: f32) -> bool {
     match (actual, expected) {
-        (PropVal::F(_), PropVal::F(_)) => {
+        (PropVal::F(x), PropVal::F(y)) => {
+            if x == y {
+                return true;
+            }
             let e = match extra {
                 PropVal::F(e) => e,
                 _ => 0.0,
             };
-            prop_close(actual, expected, float_scale(m, prop, e), BAND_ULPS)
+            let scale = float_scale(m, prop, e).max(x.abs()).max(y.abs()).max(f32::MIN_POSITIVE);
+            ((x as f64) - (y as f64)).abs() <= tol as f64 * scale as f64
         }
         (PropVal::I(x), PropVal::I(y)) => {
             let mut scale = (x.abs()).max(y.abs()) as f64;
@@ -144,21 +187,10 @@ pub fn close_within_band(m: &MergedSpec, prop: usize, actual: PropVal, expected:
                     }
                 }
             }
-            ((x - y).abs() as f64) <= (BAND_ULPS as f64 * f32::EPSILON as f64 * scale).max(1.0)
+            ((x - y).abs() as f64) <= (tol as f64 * scale).max(1.0)
         }
         _ => false,
     }
-}
-
-/// Does some component approach its end instant through a (near-)discontinuity: the staircase
-/// easing, or a keyframe a hair away from the terminal position? Then the value one rounding
-/// before the end instant legitimately is far from the terminal value.
-pub fn steep_end(m: &MergedSpec) -> bool {
-    m.parts.iter().any(|p| {
-        p.uses_easing(CUSTOM_STEPS)
-            || (p.reverse && p.kfs.iter().any(|k| k.pos > 0.0 && k.pos < 1e-4))
-            || (!p.reverse && p.kfs.iter().any(|k| k.pos < 1.0 && k.pos > 1.0 - 1e-4))
-    })
 }
 
 pub fn set_prop(v: &mut Vals, prop: usize, x: PropVal) {
